@@ -104,7 +104,7 @@ struct Case {
   // measured
   uint64_t edgesCompared = 0, nodesCompared = 0, filesDecoded = 0, filesWrittenByLib = 0,
            libReads = 0, partRanges = 0, segments = 0, orderSame = 0, orderDiff = 0,
-           v2BothConventions = 0, v2OddDataFiles = 0;
+           v2OddDataFiles = 0;
   std::set<std::string> fired;
   std::string sigExtra;
 
